@@ -125,7 +125,7 @@ func Run(r *ev.Run, replay string) {
 	r.Count("witnesses", int64(len(wits)))
 
 	rng := r.Rand("plan")
-	base := r.N(4000, 50000)
+	base := r.N(4000, 80000)
 	longCap := r.N(100000, 1000000)
 	var mix []*batch
 	for _, d := range drivers {
@@ -161,9 +161,12 @@ func Run(r *ev.Run, replay string) {
 	for _, k := range gateList() {
 		r.Gate("calls:"+k, int64(r.N(1000, 10000)))
 	}
-	for _, s := range []string{"random", "grammar", "mutation", "splice", "long", "structured"} {
+	for _, s := range []string{"random", "grammar", "mutation", "splice", "structured"} {
 		r.Gate("source:"+s, int64(r.N(1000, 10000)))
 	}
+	// The long stratum is a fixed list per (driver, system); quick runs a
+	// third of the generic shapes and nothing above 10^5 units.
+	r.Gate("source:long", int64(r.N(1500, 6000)))
 	r.GateNontrivial(int64(r.N(400000, 4000000)))
 	r.Set("batches", p.batches)
 	r.Set("batches_requeued", p.requeued)
